@@ -26,11 +26,11 @@ func init() {
 		Required: []string{"join/w=1", "join/w=2", "join/w=4", "join/w=8", "join/w=16", "join/w=32", "join/w=64", "join/empty",
 			"slice/empty", "slice/aligned", "slice/unaligned", "slice/multiword", "slice/to-end", "slice/sub-word"},
 		Families: func(c *mon.Config) []mon.Family {
-			reps := c.Pick(2, 40)
+			reps := c.Pick(6, 1000)
 			return []mon.Family{
 				{Name: "join", N: len(c14Widths) * 131 * reps, Run: c14Join},
-				{Name: "slice-all", N: c.Pick(240, 6000), Run: c14SliceAll},
-				{Name: "slice-zoo", N: c.Pick(400, 20000), Run: c14SliceZoo},
+				{Name: "slice-all", N: c.Pick(900, 150000), Run: c14SliceAll},
+				{Name: "slice-zoo", N: c.Pick(4000, 1000000), Run: c14SliceZoo},
 			}
 		},
 	})
